@@ -19,7 +19,8 @@ Inductive action :=
 | ABare                 (* return; *)
 | AErrorStmt            (* error ...; *)
 | ARestartStmt          (* restart; *)
-| AFail.                (* a statement raises a runtime exception *)
+| AFail                 (* a statement raises a runtime exception *)
+| AAbsent.              (* the subroutine is not defined at all: the built-in default runs, no flow entry *)
 
 Definition scope_eqb (a b : scope) : bool :=
   match a, b with
@@ -38,7 +39,8 @@ Definition rstate_eqb (a b : rstate) : bool :=
 
 Definition action_eqb (a b : action) : bool :=
   match a, b with
-  | ANone, ANone | ABare, ABare | AErrorStmt, AErrorStmt | ARestartStmt, ARestartStmt | AFail, AFail => true
+  | ANone, ANone | ABare, ABare | AErrorStmt, AErrorStmt | ARestartStmt, ARestartStmt | AFail, AFail
+  | AAbsent, AAbsent => true
   | ARet x, ARet y => rstate_eqb x y
   | _, _ => false
   end.
@@ -47,7 +49,7 @@ Definition all_scopes : list scope := [Recv; Hash; Hit; Miss; Pass; Fetch; Error
 Definition all_rstates : list rstate :=
   [SLookup; SPass; SHash; SError; SRestart; SDeliver; SFetch; SDeliverStale; SHitForPass; SEnd; SOther].
 Definition all_actions : list action :=
-  ANone :: ABare :: AErrorStmt :: ARestartStmt :: AFail :: map ARet all_rstates.
+  ANone :: ABare :: AErrorStmt :: ARestartStmt :: AFail :: AAbsent :: map ARet all_rstates.
 
 Definition mem_scope (s : scope) (l : list scope) : bool := existsb (scope_eqb s) l.
 Definition mem_rstate (s : rstate) (l : list rstate) : bool := existsb (rstate_eqb s) l.
